@@ -26,6 +26,17 @@ pub enum Op {
     Reopen { use_hint: bool },
 }
 
+/// error classes of a failing split (both only ever seen with oversized cells)
+fn err_class(e: &str) -> Option<&'static str> {
+    if e.contains("not enough free space") {
+        Some("split_no_space")
+    } else if e.contains("separator key already exists") {
+        Some("split_separator_exists")
+    } else {
+        None
+    }
+}
+
 fn hx(b: &[u8]) -> String {
     if b.len() > 24 {
         format!("{}..({}B)", b[..24].iter().map(|x| format!("{:02x}", x)).collect::<String>(), b.len())
@@ -393,7 +404,7 @@ pub fn execute(ops: &[Op]) -> Outcome {
                             }
                             Err(e) => {
                                 if !existed {
-                                    let c = if e.to_string().contains("not enough free space") { "split_no_space".to_string() } else { tag("insert_new_key_err") };
+                                    let c = err_class(&e.to_string()).map(|x| x.to_string()).unwrap_or_else(|| tag("insert_new_key_err"));
                                     return Err(("insert_ok".into(), c, json!({"key": hx(k), "vlen": v.len(), "err": e.to_string()})));
                                 }
                             }
@@ -419,7 +430,7 @@ pub fn execute(ops: &[Op]) -> Outcome {
                                 }
                             }
                             Err(e) => {
-                                let c = if !existed && e.to_string().contains("not enough free space") { "split_no_space".to_string() } else { tag("insert_if_not_exists_err") };
+                                let c = err_class(&e.to_string()).filter(|_| !existed).map(|x| x.to_string()).unwrap_or_else(|| tag("insert_if_not_exists_err"));
                                 return Err(("insert_if_absent".into(), c, json!({"key": hx(k), "existed": existed, "err": e.to_string()})));
                             }
                         }
@@ -433,7 +444,7 @@ pub fn execute(ops: &[Op]) -> Outcome {
                                     model.insert(k.clone(), v.clone());
                                 }
                                 Err(e) => {
-                                    let c = if e.to_string().contains("not enough free space") { "split_no_space".to_string() } else { tag("insert_append_err") };
+                                    let c = err_class(&e.to_string()).map(|x| x.to_string()).unwrap_or_else(|| tag("insert_append_err"));
                                     return Err(("append_ok".into(), c, json!({"key": hx(k), "err": e.to_string()})));
                                 }
                             }
